@@ -30,8 +30,20 @@ def _inner(tree):
     if not (isinstance(b1, ast.If) and t2.src(b1.test) == 'len(u.shape) == 2' and len(b1.body) == 1):
         raise TranslateError('inner: scalar branch')
     _expect(b1.body[0], 'return u * v', 'inner scalar branch')
-    return ('Definition gen_inner_scalar (u v : R) : R := rmul o u v.          (* len(u.shape) == 2: u * v *)\n'
-            'Definition gen_inner_tuple1 (u v : R) : R := radd o (r0 o) (gen_inner_scalar u v).  (* sum([inner(u[0], v[0])]) *)')
+    b2 = b1.orelse[0] if len(b1.orelse) == 1 else None
+    if not (isinstance(b2, ast.If) and t2.src(b2.test) == 'len(u.shape) == 3' and len(b2.body) == 1):
+        raise TranslateError('inner: vector branch')
+    _expect(b2.body[0], 'return dot(u, v)', 'inner vector branch')
+    dot = t2.find_def(tree, 'dot')
+    if [a.arg for a in dot.args.args] != ['u', 'v']:
+        raise TranslateError('dot signature')
+    _expect(_body(dot)[0], "return np.einsum('i...,i...', u, v)", 'helpers.dot')
+    return ('Definition gen_dot (u v : list R) : R := lsum o (fun p => rmul o (fst p) (snd p)) (combine u v).'
+            "   (* np.einsum('i...,i...', u, v) *)\n"
+            'Definition gen_inner_field (u v : list R) : R :=          (* len(u.shape) == 2: u * v;  == 3: dot(u, v) *)\n'
+            '  match u, v with [a], [b] => rmul o a b | _, _ => gen_dot u v end.\n'
+            'Definition gen_inner_tuple (u v : list (list R)) : R :=   (* sum([inner(u[i], v[i]) for i ...]) = ((0 + t0) + t1) + ... *)\n'
+            '  fold_left (fun acc p => radd o acc (gen_inner_field (fst p) (snd p))) (combine u v) (r0 o).')
 
 
 def _projection(tree):
@@ -71,8 +83,8 @@ def _projection(tree):
         raise TranslateError(f'_projection: mass form pairs {out[0]}')
     if out[1] != (('INTERP',), ('V',)):
         raise TranslateError(f'_projection: load form pairs {out[1]}')
-    return ('Definition gen_mass_kernel (u v : R) : R := gen_inner_tuple1 u v.   (* inner(args[:k], args[k:-1]) : trial, test *)\n'
-            'Definition gen_load_kernel (w v : R) : R := gen_inner_tuple1 w v.   (* inner(interp, args[:-1]) : interp, test *)\n'
+    return ('Definition gen_mass_kernel (u v : list (list R)) : R := gen_inner_tuple u v.   (* inner(args[:k], args[k:-1]) : trial, test *)\n'
+            'Definition gen_load_kernel (w v : list (list R)) : R := gen_inner_tuple w v.   (* inner(interp, args[:-1]) : interp, test *)\n'
             'Definition gen_projection (N : nat) (B : fe R) (x : list R) :=\n'
             '  (mass_matrix o gen_mass_kernel N B, load_vector o gen_load_kernel N B x).   (* both forms .assemble(self) *)')
 
